@@ -9,6 +9,7 @@
 -/
 import Kopf.Lemmas.C06_Live
 import Kopf.Lemmas.C06_Registry
+import Kopf.Lemmas.C06_Invoke
 namespace Kopf.C06
 
 /-! ## Foreign finalizers: never added, dropped or reordered -/
@@ -889,5 +890,82 @@ loses the requirement of an object that matches only a later registration of a s
 theorem dedup_before_match_loses_requirement_witness :
     ∃ regs, requiresLoop [] regs = true ∧ requiresLoop [] (dedupById regs []) = false :=
   ⟨[⟨"fn", true, false⟩, ⟨"fn", true, true⟩], by decide, by decide⟩
+
+/-! ## The task of a synchronous daemon/handler and its thread (sync branch of `invocation.invoke`)
+
+"A matching daemon that has neither exited nor been abandoned after its timeouts" — `stop_daemons` takes
+`daemon.task.done()` for "has exited". For a synchronous function (a real thread) that is right only by the
+ordering law below. `IReach true s`: reachable by ANY list of `cancel` / `ret` / `wake` labels (any number of
+cancellations at any moments, the function returning or raising at any moment). -/
+
+/-- The ordering law: the task of a sync function is not done before the function has returned in its thread —
+whatever is cancelled, however often. -/
+theorem sync_task_done_implies_returned {s : Inv} (h : IReach true s) : s.done = true → s.returned = true :=
+  (iinv_reach h).1
+
+-- non-vacuity: cancelled twice while running, then the function returns, then the task ends (as cancelled)
+example : irun true {} [.cancel, .wake, .cancel, .wake, .ret false, .wake]
+    = some { fut := some false, armed := false, late := false, cancellation := true, fin := some .cancelled } := by decide
+-- cancelled, and before the loop runs the function raises: the step sees the future not done yet, awaits again, and the
+-- function's exception ends the task (the real run corpus/C06/09)
+example : (irun true {} [.cancel, .ret true, .cancel, .wake]).map Inv.done = some false
+    ∧ (irun true {} [.cancel, .ret true, .cancel, .wake, .wake]).map Inv.fin = some (some .error) := by decide
+example : (irun true {} [.cancel, .wake, .cancel, .wake]).map Inv.done = some false := by decide
+
+/-- The postponed cancellation is not lost: a task that ends with the function's value was never cancelled
+before (after a cancellation it ends as cancelled, or with the function's own exception). -/
+theorem sync_cancellation_not_lost {s : Inv} (h : IReach true s) (hv : s.fin = some .value) :
+    s.cancellation = false ∧ s.armed = false :=
+  (iinv_reach h).2 hv
+
+example : (irun true {} [.ret false, .wake]).map Inv.fin = some (some .value) := by decide
+
+/-- ... and the task is not stuck for longer than the function: once the function has returned, the task's next
+step is enabled, and at most two steps end it. -/
+theorem sync_task_finishes_after_return (s : Inv) (hr : s.returned = true) (hd : s.done = false) :
+    ∃ s', (irun true s [.wake] = some s' ∨ irun true s [.wake, .wake] = some s') ∧ s'.done = true := by
+  obtain ⟨fut, armed, late, cancellation, fin⟩ := s
+  cases fin with
+  | some f => simp [Inv.done] at hd
+  | none =>
+    cases fut with
+    | none => simp [Inv.returned] at hr
+    | some r => cases armed <;> cases r <;> cases late <;> cases cancellation <;> simp [irun, istep, Inv.done, Inv.returned]
+
+/-- What `stop_daemons` reports for one daemon: no delay iff the task is done or the daemon is abandoned
+(a cancellation timeout is declared and backoff + timeout are over). -/
+theorem stop_no_delay_spec (done : Bool) (backoff timeout : Option Nat) (age polling : Nat) :
+    stopDelay done backoff timeout age polling = none ↔ (done = true ∨ abandoned backoff timeout age) :=
+  stopDelay_none_iff done backoff timeout age polling
+
+example : stopDelay false (some 2) (some 30) 5 1 = some 27 ∧ stopDelay false (some 2) (some 30) 32 1 = none
+    ∧ stopDelay false none none 1000 1 = some 1 ∧ stopDelay true none none 0 1 = none := by decide
+
+/-- Composition: while the function of a sync daemon is running in its thread and the daemon is not abandoned,
+`stop_daemons` reports a delay for it (so the cycle does not release the finalizer: `decision_spec`,
+`spawnDelays`) — for every history of cancellations, at every age, with any backoff/timeout declared or not. -/
+theorem release_waits_for_sync_daemon {s : Inv} (h : IReach true s) (backoff timeout : Option Nat) (age polling : Nat)
+    (hn : stopDelay s.done backoff timeout age polling = none) :
+    s.returned = true ∨ abandoned backoff timeout age := by
+  rcases (stopDelay_none_iff _ _ _ _ _).mp hn with hd | ha
+  · exact Or.inl (sync_task_done_implies_returned h hd)
+  · exact Or.inr ha
+
+example : IReach true { fut := none, armed := false, late := false, cancellation := true, fin := none } := ⟨[.cancel, .wake], by decide⟩
+example : stopDelay (Inv.done { fut := none, armed := false, late := false, cancellation := true, fin := none }) none (some 30) 0 1 = some 30 := by decide
+
+/-- The variant without the postponing loop (a single `await shield(future)`, the thread left behind; seeded
+change C06f): one cancellation ends the task while the function is still running, ... -/
+theorem detached_thread_witness : ∃ s, IReach false s ∧ s.done = true ∧ s.returned = false :=
+  ⟨{ fut := none, armed := false, late := false, cancellation := true, fin := some .cancelled }, ⟨[.cancel, .wake], by decide⟩, by decide, by decide⟩
+
+/-- ... and `stop_daemons` reports no delay at age 0 of a 30-unit cancellation timeout: neither exited nor abandoned,
+yet nothing holds the finalizer. -/
+theorem detached_release_witness :
+    ∃ s, IReach false s ∧ s.returned = false ∧ stopDelay s.done none (some 30) 0 1 = none ∧ ¬ abandoned none (some 30) 0 := by
+  refine ⟨{ fut := none, armed := false, late := false, cancellation := true, fin := some .cancelled }, ⟨[.cancel, .wake], by decide⟩, by decide, by decide, ?_⟩
+  rintro ⟨tt, ht, hle⟩
+  cases ht
+  simp at hle
 
 end Kopf.C06
